@@ -1473,6 +1473,15 @@ def retry_api(rng, name):
         sa.rpc(n, P + ".Req", P + ".Reply")
     for n in names_b:
         sb.rpc(n, P + ".Req", P + ".Reply")
+    # a paginated method named in an entry with a retry policy: the default and any explicit retry apply to every page fetch
+    lq = f.message("ListReq")
+    lq.field("parent", "string")
+    lq.field("page_size", "int32")
+    lq.field("page_token", "string")
+    lr = f.message("ListReply")
+    lr.field("items", "string", repeated=True)
+    lr.field("next_page_token", "string")
+    sa.rpc("List", P + ".ListReq", P + ".ListReply")
     timeouts = rng.sample([5, 12, 20, 33, 47, 60, 75, 90, 120], 6)
     durs = ["0.1s", "0.5s", "1s", "1.25s", "0.250000000s", "2s", "0.05s"]
 
@@ -1503,6 +1512,9 @@ def retry_api(rng, name):
     cfg.append({"name": [{"service": A, "method": pool[0]}, {"service": A, "method": pool[4]}], "timeout": f"{timeouts[3]}s", "retryPolicy": policy()})
     # entry 6: names a method that does not exist and a service that does not exist
     cfg.append({"name": [{"service": A, "method": "Nope"}, {"service": f"{pkg}.Gamma", "method": "Get"}], "timeout": "3s", "retryPolicy": policy()})
+    lp = policy()
+    lp["retryableStatusCodes"] = sorted(set(lp["retryableStatusCodes"]) - {"NOT_FOUND"}) or ["UNAVAILABLE"]
+    cfg.append({"name": [{"service": A, "method": "List"}], "timeout": f"{timeouts[4]}s", "retryPolicy": lp})
     if rng.random() < 0.5:
         rng.shuffle(cfg[1:4])
     # pool[5:], Alpha.Get (unless drawn), Beta.Put, Beta.Other stay unnamed
